@@ -64,18 +64,24 @@ Fixpoint uint_chars (u : Decimal.uint) : str :=
 Definition print_N (n : N) : str := uint_chars (N.to_uint n).
 Definition py_str_int (z : Z) : str := if z <? 0 then 45 :: print_N (Z.to_N (- z)) else print_N (Z.to_N z).
 
-Fixpoint digits_val (acc : Z) (s : str) : option Z :=
+Definition push_digit (c : Z) (u : Decimal.uint) : Decimal.uint :=
+  match c - 48 with
+  | 0 => Decimal.D0 u | 1 => Decimal.D1 u | 2 => Decimal.D2 u | 3 => Decimal.D3 u | 4 => Decimal.D4 u
+  | 5 => Decimal.D5 u | 6 => Decimal.D6 u | 7 => Decimal.D7 u | 8 => Decimal.D8 u | _ => Decimal.D9 u
+  end.
+Fixpoint chars_uint (d : str) : Decimal.uint :=
+  match d with [] => Decimal.Nil | c :: r => push_digit c (chars_uint r) end.
+(* value of a non-empty string of ASCII digits *)
+Definition digits_val (s : str) : option Z :=
   match s with
-  | [] => Some acc
-  | c :: r => if is_digit c then digits_val (acc * 10 + (c - 48)) r else None
+  | [] => None
+  | _ => if forallb is_digit s then Some (Z.of_N (N.of_uint (chars_uint s))) else None
   end.
 (* int(s): ValueError = None *)
 Definition py_int (s : str) : option Z :=
   match strip s with
+  | c :: r => if c =? 43 then digits_val r else if c =? 45 then v <- digits_val r ;; Some (- v) else digits_val (c :: r)
   | [] => None
-  | 43 :: r => match r with [] => None | _ => digits_val 0 r end
-  | 45 :: r => match r with [] => None | _ => v <- digits_val 0 r ;; Some (- v) end
-  | r => digits_val 0 r
   end.
 
 (* ---------------------------------------------------------------- utils/coordinates.py *)
